@@ -152,8 +152,11 @@ func VerifC06Rtsp() {
 	} else {
 		r.FeedRtmpMsg(c05AvcSeqHeader())
 	}
-	r.FeedRtmpMsg(c05AacSeqHeader())
-	vrt.Assert(sdpN == 1, "SDP produced once both sequence headers are known")
+	acodec := vrt.Param("acodec") // 0 AAC, 1 G.711A (no sequence header: the codec is learnt from the first audio message)
+	if acodec == 0 {
+		r.FeedRtmpMsg(c05AacSeqHeader())
+		vrt.Assert(sdpN == 1, "SDP produced once both sequence headers are known")
+	}
 
 	l1, l2, l3 := vrt.Param("l1"), vrt.Param("l2"), vrt.Param("l3")
 	cls := vrt.Param("cls")
@@ -169,6 +172,9 @@ func VerifC06Rtsp() {
 	if al > 0 {
 		afr = vrt.Bytes("aac", al)
 		p := append([]byte{0xaf, 1}, afr...)
+		if acodec == 1 {
+			p = append([]byte{0x72}, afr...)
+		}
 		r.FeedRtmpMsg(base.RtmpMsg{Header: base.RtmpHeader{Csid: 4, MsgLen: uint32(len(p)), MsgTypeId: 8, MsgStreamId: 1, TimestampAbs: tsa}, Payload: p})
 	}
 	r.FeedRtmpMsg(c06VideoMsg(hevc, ts2, false, 0, [][]byte{n3}))
@@ -182,7 +188,8 @@ func VerifC06Rtsp() {
 		if !q.ok {
 			return
 		}
-		if q.pt == uint8(base.AvPacketPtAac) {
+		if q.pt == uint8(base.AvPacketPtAac) || q.pt == uint8(base.AvPacketPtG711A) {
+			vrt.Assert((q.pt == uint8(base.AvPacketPtG711A)) == (acodec == 1), "audio payload type as announced")
 			ap = append(ap, q)
 		} else {
 			wantPt := uint8(base.AvPacketPtAvc)
@@ -236,6 +243,16 @@ func VerifC06Rtsp() {
 			vrt.Assert(vp[j].marker == (lastOfFrame[i] && j == lastPkt[i]), "video: marker on the last packet of the access unit only")
 		}
 		first = lastPkt[i] + 1
+	}
+	if al > 0 && acodec == 1 {
+		// G.711A: RFC 3551, the frame is the payload, 8 kHz clock
+		vrt.Assert(len(ap) == 1, "audio: one packet per G.711 frame")
+		if len(ap) == 1 {
+			vrt.Assert(c06Eq(ap[0].payload, afr), "audio: G.711 frame byte for byte")
+			vrt.Assert(ap[0].ts == uint32(uint64(tsa)*8), "audio: RTP timestamp = 8 * published timestamp")
+		}
+		vrt.Cover("end")
+		return
 	}
 	// audio: RFC 3640 AAC-hbr, one AU per packet
 	if al > 0 {
